@@ -1363,6 +1363,162 @@ fn dbscan(case: &Value) {
     println!("{}", serde_json::to_string(&json!({"clusters": out})).unwrap());
 }
 
+/// The insertion step (C02 / C04 kernel): a consistent insertion context - tour of v0 with job X, v1 unused, Y required, Z unassigned with a
+/// code, J required (and possibly still listed as unassigned) - then `apply_insertion_success`, `finalize_insertion_ctx` and the conversion
+/// into a `Solution`, through guarded accessors (the functions are crate-private).
+fn insertion_step(case: &Value) {
+    use vrp_core::models::{Extras, Problem, Solution};
+    let n_tasks = case["tasks"].as_u64().unwrap() as usize;
+    let vehicles: Vec<Arc<Vehicle>> = (0..2)
+        .map(|i| {
+            let mut dimens = Dimensions::default();
+            dimens.set_vehicle_id(format!("v{i}"));
+            Arc::new(Vehicle {
+                profile: Profile::default(),
+                costs: costs(&Value::Null),
+                dimens,
+                details: vec![VehicleDetail {
+                    start: Some(VehiclePlace { location: 0, time: TimeInterval { earliest: Some(0.), latest: None } }),
+                    end: Some(VehiclePlace { location: 0, time: TimeInterval { earliest: None, latest: Some(1000.) } }),
+                }],
+            })
+        })
+        .collect();
+    let driver = Driver { costs: costs(&Value::Null), dimens: Default::default(), details: vec![] };
+    let fleet = Arc::new(Fleet::new(vec![Arc::new(driver)], vehicles, |_| |_| 0));
+    let transport: Arc<dyn TransportCost> =
+        Arc::new(Matrix { dur: HashMap::new(), dist: HashMap::new(), dur_default: 0., dist_default: 0. });
+    let activity: Arc<dyn ActivityCost> = Arc::new(SimpleActivityCost::default());
+    let feature = TransportFeatureBuilder::new("transport")
+        .set_transport_cost(transport.clone())
+        .set_activity_cost(activity.clone())
+        .build_minimize_cost()
+        .unwrap();
+    let goal_ctx = GoalContextBuilder::with_features(&[feature]).unwrap().build().unwrap();
+    let mk_single = |id: &str| {
+        let mut dimens = Dimensions::default();
+        dimens.set_job_id(id.to_string());
+        Arc::new(Single { places: vec![Place { location: Some(0), duration: 0., times: vec![TimeSpan::Window(TimeWindow::max())] }], dimens })
+    };
+    let (x, y, z) = (Job::Single(mk_single("X")), Job::Single(mk_single("Y")), Job::Single(mk_single("Z")));
+    let j = if n_tasks == 1 {
+        Job::Single(mk_single("J"))
+    } else {
+        let mut dimens = Dimensions::default();
+        dimens.set_job_id("J".to_string());
+        Job::Multi(Multi::new_shared((0..n_tasks).map(|i| mk_single(&format!("J{i}"))).collect(), dimens))
+    };
+    let logger: vrp_core::rosomaxa::utils::InfoLogger = Arc::new(|_| ());
+    let jobs = vrp_core::models::problem::Jobs::new(&fleet, vec![x.clone(), y.clone(), z.clone(), j.clone()], transport.as_ref(), &logger).unwrap();
+    let problem = Arc::new(Problem {
+        fleet: fleet.clone(),
+        jobs: Arc::new(jobs),
+        locks: vec![],
+        goal: Arc::new(goal_ctx),
+        activity,
+        transport,
+        extras: Arc::new(Extras::default()),
+    });
+    let mut ictx = InsertionContext::new_empty(problem, Arc::new(vrp_core::rosomaxa::utils::Environment::default()));
+    let find = |i: usize| fleet.actors.iter().find(|a| a.vehicle.dimens.get_vehicle_id().unwrap() == &format!("v{i}")).unwrap().clone();
+    let mut used = ictx.solution.registry.get_route(&find(0)).unwrap();
+    used.route_mut().tour.insert_last(Activity::new_with_job(x.to_single().clone()));
+    ictx.solution.routes.push(used);
+    ictx.solution.required = vec![y.clone(), j.clone()];
+    ictx.solution.unassigned.insert(z.clone(), UnassignmentInfo::Simple(ViolationCode(3)));
+    if case["also_unassigned"].as_bool().unwrap() {
+        ictx.solution.unassigned.insert(j.clone(), UnassignmentInfo::Simple(ViolationCode(3)));
+    }
+    let tasks: Vec<Arc<Single>> = match &j {
+        Job::Single(s) => vec![s.clone()],
+        Job::Multi(m) => m.jobs.clone(),
+    };
+    let legs: Vec<usize> = case["legs"].as_array().unwrap().iter().map(|l| l.as_u64().unwrap() as usize).collect();
+    let actor = find(case["actor"].as_u64().unwrap() as usize);
+    let success = InsertionSuccess {
+        cost: InsertionCost::default(),
+        job: j.clone(),
+        activities: tasks.iter().zip(legs.iter()).map(|(s, leg)| (Activity::new_with_job(s.clone()), *leg)).collect(),
+        actor,
+    };
+    let name = |job: &Job| job.dimens().get_job_id().cloned().unwrap_or_default();
+    let observe = |ictx: &InsertionContext| {
+        let routes: Vec<Value> = ictx.solution.routes.iter().map(|rc| {
+            let acts: Vec<Option<String>> = rc.route().tour.all_activities().map(|a| a.job.as_ref().map(|s| s.dimens.get_job_id().cloned().unwrap_or_default())).collect();
+            let mut tour_jobs: Vec<String> = rc.route().tour.jobs().map(&name).collect();
+            tour_jobs.sort();
+            json!({"vehicle": rc.route().actor.vehicle.dimens.get_vehicle_id(), "activities": acts, "jobs": tour_jobs})
+        }).collect();
+        let mut unassigned: Vec<String> = ictx.solution.unassigned.keys().map(&name).collect();
+        unassigned.sort();
+        let mut available: Vec<String> = ictx.solution.registry.resources().available().map(|a| a.vehicle.dimens.get_vehicle_id().unwrap().clone()).collect();
+        available.sort();
+        json!({"routes": routes, "required": ictx.solution.required.iter().map(&name).collect::<Vec<_>>(), "unassigned": unassigned, "available": available})
+    };
+    vrp_core::construction::heuristics::verif_apply_insertion_success(&mut ictx, success);
+    let after_apply = observe(&ictx);
+    vrp_core::construction::heuristics::verif_finalize_insertion_ctx(&mut ictx);
+    let after_finalize = observe(&ictx);
+    let solution: Solution = ictx.into();
+    let mut sol_unassigned: Vec<String> = solution.unassigned.iter().map(|(job, _)| name(job)).collect();
+    sol_unassigned.sort();
+    let sol_routes: Vec<Vec<Option<String>>> = solution.routes.iter().map(|r| r.tour.all_activities().map(|a| a.job.as_ref().map(|s| s.dimens.get_job_id().cloned().unwrap_or_default())).collect()).collect();
+    println!("{}", serde_json::to_string(&json!({"after_apply": after_apply, "after_finalize": after_finalize, "solution_unassigned": sol_unassigned, "solution_routes": sol_routes})).unwrap());
+}
+
+/// Unassigned section of the written solution (C02): entries of the case put into a `Solution`, written by `write_pragmatic`.
+fn unassigned_writer(case: &Value) {
+    use std::io::BufWriter;
+    use vrp_pragmatic::format::ShiftIndexDimension;
+    use vrp_core::models::Solution;
+    use vrp_pragmatic::format::problem::PragmaticProblem;
+    use vrp_pragmatic::format::solution::{write_pragmatic, PragmaticOutputType};
+    let problem = Arc::new(
+        (case["problem"].to_string(), vec![case["matrix"].to_string()]).read_pragmatic().unwrap_or_else(|e| setup_failed("cannot read problem", e)),
+    );
+    let find_actor = |vid: &str, shift: usize| {
+        problem
+            .fleet
+            .actors
+            .iter()
+            .find(|a| a.vehicle.dimens.get_vehicle_id().is_some_and(|id| id == vid) && a.vehicle.dimens.get_shift_index().copied() == Some(shift))
+            .unwrap_or_else(|| setup_failed("actor", format!("{vid}/{shift} not in the fleet")))
+            .clone()
+    };
+    let actors = [find_actor("v1", 0), find_actor("v2", 1)];
+    let mut unassigned = vec![];
+    for (i, e) in case["entries"].as_array().unwrap().iter().enumerate() {
+        let id = format!("job{i}");
+        let job = if e["bound"].as_bool().unwrap() {
+            let mut dimens = Dimensions::default();
+            dimens.set_job_id(id.clone());
+            dimens.set_vehicle_id("v1".to_string());
+            Job::Single(Arc::new(Single { places: vec![], dimens }))
+        } else {
+            problem.jobs.all().iter().find(|j| j.dimens().get_job_id().is_some_and(|x| *x == id)).unwrap_or_else(|| setup_failed("job", id.clone())).clone()
+        };
+        let codes: Vec<i32> = e["codes"].as_array().unwrap().iter().map(|c| c.as_i64().unwrap() as i32).collect();
+        let info = match e["info"].as_str().unwrap() {
+            "unknown" => UnassignmentInfo::Unknown,
+            "simple" => UnassignmentInfo::Simple(ViolationCode(codes[0])),
+            _ => UnassignmentInfo::Detailed(codes.iter().enumerate().map(|(k, c)| (actors[k].clone(), ViolationCode(*c))).collect()),
+        };
+        unassigned.push((job, info));
+    }
+    let solution = Solution {
+        cost: 0.,
+        registry: Registry::new(&problem.fleet, Arc::new(DefaultRandom::default())),
+        routes: vec![],
+        unassigned,
+        telemetry: None,
+    };
+    let mut buffer = BufWriter::new(Vec::new());
+    write_pragmatic(problem.as_ref(), &solution, PragmaticOutputType::OnlyPragmatic, &mut buffer).unwrap();
+    let text = String::from_utf8(buffer.into_inner().unwrap()).unwrap();
+    let doc: Value = serde_json::from_str(&text).unwrap();
+    println!("{}", serde_json::to_string(&json!({"unassigned": doc.get("unassigned")})).unwrap());
+}
+
 /// `Statistic + Statistic` through the public operator.
 fn statistic_sum(case: &Value) {
     use vrp_pragmatic::format::solution::{Statistic, Timing};
@@ -1418,6 +1574,12 @@ fn main() {
     }
     if case["kind"] == "group_state" {
         return group_state(&case);
+    }
+    if case["kind"] == "insertion_step" {
+        return insertion_step(&case);
+    }
+    if case["kind"] == "unassigned_writer" {
+        return unassigned_writer(&case);
     }
     if case["kind"] == "dbscan" {
         return dbscan(&case);
